@@ -45,6 +45,32 @@ def totalNy : List (Sec K) → Nat
   | [s] => s.ny
   | s :: rest => (s.ny - 1) + totalNy rest
 
+/-! ### the component `GeomMultiUnification.compute` (it differs from the function `unify_mesh`: the leading-edge shift is
+also applied before the *last* section is appended) and `GeomMultiJoin.compute` -/
+
+/-- loop body of `GeomMultiUnification.compute` for `i_sec ≥ 1` -/
+def unifyCompAux (shift : Bool) (acc : Mesh K) (n : Nat) (prev : Sec K) : List (Sec K) → Mesh K × Nat
+  | [] => (acc, n)
+  | s :: rest =>
+    let acc' : Mesh K := if shift then fun i c => acc i c - prev.mesh 0 (prev.ny - 1) + s.mesh 0 0 else acc
+    match rest with
+    | [] => (fun i c => if c < n then acc' i c else s.mesh i (c - n), n + s.ny)
+    | _ :: _ => unifyCompAux shift (fun i c => if c < n then acc' i c else s.mesh i (c - n)) (n + (s.ny - 1)) s rest
+
+/-- `GeomMultiUnification.compute`: the first section always loses its last column (a one-section list therefore yields
+`ny − 1` columns, which the component cannot store in its `ny`-column output: the real code raises) -/
+def unifyComp (shift : Bool) : List (Sec K) → Mesh K × Nat
+  | [] => (fun _ _ => 0, 0)
+  | s :: rest => unifyCompAux shift s.mesh (s.ny - 1) s rest
+
+/-- `GeomMultiJoin.compute`, edge `k` between sections `k` and `k+1`: left edge of the outer section minus right edge of the
+inner one, leading edge (`te = false`) or trailing edge (`te = true`), all three coordinates -/
+def joinSeparation (nx : Nat) (secs : List (Sec K)) (k : Nat) (te : Bool) : V3 K :=
+  let a := secs.getD k ⟨0, fun _ _ => 0⟩
+  let b := secs.getD (k + 1) ⟨0, fun _ _ => 0⟩
+  let i := if te then nx - 1 else 0
+  b.mesh i 0 - a.mesh i (a.ny - 1)
+
 end
 end Unify
 end OAS
